@@ -111,6 +111,21 @@ def apalache_induction(c, layouts, par=4):
         raise ToolError("Apalache did not establish the inductive layout step for element layouts %s (model error: the TLC model and the real compiler agree up to depth 11)" % bad[:5])
 
 
+def mc_layout(c, tier, info, cfg="MC_Layout"):
+    """MC_Layout reads the storage structs' field lists and repr modifiers from the source (LayoutSrc.tla): an
+    invariant violated there is a verdict about the source, not a failure of the machinery."""
+    try:
+        c.mc("MC_Layout", cfg + ("_q" if tier == "quick" else "_t"), workers=8, timeout=1500)
+    except ToolError as e:
+        msg = str(e)
+        if "is violated" not in msg:
+            raise
+        tail = msg[msg.find("Error: Invariant"):][:1500] if "Error: Invariant" in msg else msg[-1500:]
+        c._sub, c._spec = "model", "MC_Layout"
+        c.report({"case": "layout-model", "d": {"source_facts": info}},
+                 {"line": 0, "event": "MC_Layout over the struct declarations of src/lib.rs", "reason": "the storage recursion as declared does not have the layout of [T; N]: " + tail, "trace": []})
+
+
 @check("C01")
 def c01(tier, seed):
     c = Check("C01", tier, seed)
@@ -120,16 +135,17 @@ def c01(tier, seed):
         c.assumptions.append("DESIGN WARNING: storage struct fields the layout model does not know (%s) are modelled as zero-sized, align-1 markers" % ", ".join(info["unknown_fields"]))
     if not (info["even_repr_c"] and info["odd_repr_c"] and info["transparent"]):
         c.assumptions.append("DESIGN WARNING: a repr attribute is missing in src/lib.rs; the model assumes declaration order, observed layouts still decide")
-    c.mc("MC_Layout", "MC_Layout_q" if tier == "quick" else "MC_Layout_t", workers=8, timeout=1500)
+    mc_layout(c, tier, info)
     binary = build_aux()
     run_aux(c, binary, "layout", tier, "layout")
-    if tier != "quick" and info["even"] == ["U", "U", "PhantomData"] and info["odd"] == ["U", "U", "T"] and info["even_repr_c"] and info["odd_repr_c"] and not info.get("unknown_fields"):
+    if tier != "quick" and info["even"] == ["U", "U", "PhantomData"] and info["odd"] == ["U", "U", "T"] and info["even_repr_c"] and info["odd_repr_c"] and not info.get("unknown_fields") \
+            and not any(m["pack"] or m["align"] for m in info["mods"].values()):
         lattice = [(s, a) for a in (1, 2, 4, 8, 16, 32, 64) for s in (0, 1, 2, 3, 4, 5, 6, 8, 12, 16, 24, 32, 48, 64, 96, 128) if s % a == 0]
         apalache_induction(c, lattice)
         c.assumptions.append("unbounded N: the layout invariant is inductive over the digit recursion for each of the %d element layouts (Apalache, base case + step)" % len(lattice))
     c.cov["exhaustive"] = True
-    c.cov["bounds"] = {"model": "every N < 2^%d x 64 element layouts (sizes 0..128, alignments 1..64)" % (7 if tier == "quick" else 11),
-                       "compiler records": "30 element types x (N in 0..=64 + boundaries%s) + every larger named typenum length up to 2^62 (N*size < 2^54; all for zero-sized types)" % ("" if tier == "quick" else ", all of 0..=1024")}
+    c.cov["bounds"] = {"model": "every N < 2^%d x 84 element layouts (sizes 0..4096, alignments 1..4096)" % (7 if tier == "quick" else 11),
+                       "compiler records": "39 element types (alignments up to 4096, over-aligned zero-sized types) x (N in 0..=64 + boundaries%s) + every larger named typenum length up to 2^62 (N*size < 2^54; all for zero-sized types)" % ("" if tier == "quick" else ", all of 0..=1024")}
     c.assumptions += ["rustc's layout algorithm is observed (size_of/align_of and real element addresses), not re-proved",
                       "lengths beyond TLC's 32-bit integers travel as base-1000 limbs and are multiplied digit-wise in the specification"]
     return c.finish()
@@ -138,8 +154,8 @@ def c01(tier, seed):
 @check("C19")
 def c19(tier, seed):
     c = Check("C19", tier, seed)
-    srcparse.parse_layout_src(vlib.REPO)
-    c.mc("MC_Layout", "MC_Layout_q" if tier == "quick" else "MC_Layout_t", workers=8, timeout=1500)
+    # C19 needs the slot bijection only (every element slot reached exactly once), not the native layout
+    mc_layout(c, tier, srcparse.parse_layout_src(vlib.REPO), cfg="MC_LayoutSlots")
     binary = build_aux()
     run_aux(c, binary, "c19", tier, "constdefault-zeroize", env={"VERIF_SEED": str(seed)})
     c.cov["exhaustive"] = True
@@ -184,6 +200,11 @@ def c14(tier, seed):
             caps = {0, 1, 2, 100, full - 1, full, full + 1, full - 2048, full - 2047, 2048, 2050, 4096, rng.randint(0, full + 1)}
             for cap in sorted(x for x in caps if x >= 0):
                 rows.append((n, p_, rng.choice([0, 1]), "lin", "sink:%d" % cap))
+    # ... and the (N, precision, capacity) cases of the error-propagation model (piece lengths of the chunk loop)
+    rs = c.mc("MC_HexSink", "MC_HexSink_q" if tier == "quick" else "MC_HexSink_t", workers=4)
+    for d in dedupe(rs["scenarios"]):
+        rows.append((d["n"], d["prec"], (d["n"] + d["cap"]) % 2, "lin", "sink:%d" % d["cap"]))
+    c.neg("MC_HexSink", "NEG_HexSink_lastwins")
     scn = os.path.join(c.dir, "hex.scn")
     open(scn, "w").write("".join(("%d %d %d %s %s" % r_).rstrip() + "\n" for r_ in rows))
     c.cov["exhaustive"] = True
